@@ -27,6 +27,7 @@ type State struct {
 	pendingBlockSize   int               // The data size (bytes) of the blocks pending processing
 	lastSavedHash      bitcoin.Hash32
 	pendingSync        bool // The peer has notified us of all blocks. Now we just have to process to catch up.
+	processingBlock    bool // A block was taken from the block requests and is not processed yet.
 	lock               sync.Mutex
 }
 
